@@ -208,6 +208,7 @@ func (w *World) verifyFunc(fi *FuncInfo, fc *FuncContract) (ex *Exec, err error)
 			if s.IsSlice {
 				ex.assume(st, tAnd(mk("<=", SBool, intLit(0), tField(c, "len")), mk("<=", SBool, intLit(0), tField(c, "off"))))
 			}
+			ex.assume(st, ex.ptrTypeFact(c, v.Type()))
 			if ex.allocates && s.Eq(SRef) && !isIntType(v.Type()) {
 				ex.assume(st, tOr(tEq(c, intLit(0)), ex.isAlloc(st, c)))
 			}
@@ -930,6 +931,7 @@ func (ex *Exec) applyContract(st *State, cfi *FuncInfo, cfc *FuncContract, recv 
 		if isIntType(rt) {
 			ex.assume(st, ex.intRange(c, rt))
 		}
+		ex.assume(st, ex.ptrTypeFact(c, rt))
 		rvals = append(rvals, v)
 		post[nm] = v
 		if len(rnames) == 1 {
